@@ -39,8 +39,8 @@ SCALARS_T = list(L.SC)
 STRUCTS = list(L.STRUCT_ORDER)
 
 TIERS = {
-    "quick": {"fmt_cfgs": ["BufFmt_q1", "BufFmt_q2", "BufFmt_q3"], "hangs": 3, "timeout": 900, "min_cases": 8000},
-    "thorough": {"fmt_cfgs": ["BufFmt_t1", "BufFmt_t2", "BufFmt_t3", "BufFmt_t4"], "hangs": 12, "timeout": 2400, "min_cases": 100000},
+    "quick": {"fmt_cfgs": ["BufFmt_q1", "BufFmt_q2", "BufFmt_q3"], "hangs": 3, "crashes": 120, "timeout": 900, "min_cases": 8000},
+    "thorough": {"fmt_cfgs": ["BufFmt_t1", "BufFmt_t2", "BufFmt_t3", "BufFmt_t4"], "hangs": 12, "crashes": 2000, "timeout": 2400, "min_cases": 100000},
 }
 
 ACTIONS = ["Subst", "Insert", "InsertEnd", "Delete", "WrapAll", "WrapOne", "Repeat2", "Tack"]
@@ -224,7 +224,8 @@ def run(tier, seed):
         by_model[mname].append(cid)
     calls, meta = [], []
     hang_budget = T["hangs"]
-    skipped_hangs = 0
+    crash_budget = T["crashes"]
+    skipped_hangs = skipped_crashes = 0
     order = list(range(len(cases)))
     rng.shuffle(order)
     for ci in order:
@@ -236,6 +237,11 @@ def run(tier, seed):
                 skipped_hangs += 1
                 continue
             hang_budget -= 1
+        if r["ir"] == "crash":       # every such call costs a process: a seeded sample of them is executed
+            if crash_budget <= 0:
+                skipped_crashes += 1
+                continue
+            crash_budget -= 1
         modes = [("fmt", r["isz"], r["v"], r["ir"])]
         if r["vd"]:
             modes.append(("dtype", dtypes[r["dt"]]["size"], r["vd"], r["ird"]))
@@ -246,7 +252,7 @@ def run(tier, seed):
                     meta.append((ci, cid, path, mode, isz, v, ir))
     log(t0, "%d calls planned" % len(calls))
     # risky calls (forked) last within their chunk is not needed: each is isolated
-    nchunks = max(1, min(8, len(calls) // 20000))
+    nchunks = max(1, min(8, len(calls) // 5000))
     chunks = [list(range(k, len(calls), nchunks)) for k in range(nchunks)]
     with concurrent.futures.ThreadPoolExecutor(max_workers=nchunks) as ex:
         outs = list(ex.map(lambda kc: L.run_acquisitions(build, [calls[i] for i in kc[1]], tag="acq%d" % kc[0]), enumerate(chunks)))
@@ -324,7 +330,7 @@ def run(tier, seed):
         "states": states, "distinct_states": distinct, "transitions": states,
         "traces_validated_against_impl": n_exec, "evaluations": n_exec, "distinct_nontrivial": len(nontrivial),
         "cases_published": len(cases), "executed_per_path_and_verdict": dict(per),
-        "predicted_hangs_not_executed": skipped_hangs, "transcription_vs_code": dict(fidelity),
+        "predicted_hangs_not_executed": skipped_hangs, "predicted_crashes_not_executed": skipped_crashes, "transcription_vs_code": dict(fidelity),
         "acquisitions_with_unbalanced_release": unbalanced, "value_oracle": dict(pvals), "binding_selftest_cases": n_demo,
         "dtypes": sorted(dtypes), "c_types": [cid for cid, _ in ids], "exhaustive": True,
         "rule": "every state published by TLC (a dtype and an edited spine format) is executed for every C type of the dtype, through the "
